@@ -276,7 +276,7 @@ func c09Gen(tier string, emit func(c09Case)) {
 	values := []string{"string", "error", "struct"}
 	maxN := 3
 	if tier == "thorough" {
-		maxN = 4
+		maxN = 5
 	}
 	for n := 1; n <= maxN; n++ {
 		for _, sp := range splitsOf(n - 1) {
@@ -319,11 +319,11 @@ func c09Gen(tier string, emit func(c09Case)) {
 var c09Spec = fw.Spec[c09Case]{
 	ID:    "C09",
 	Level: "model_checking",
-	Rule: "complete product: chain shapes n<=3 (thorough 4) x every global/group/route split x every panic position x {before Next, after Next, without Next} x panic value {string, error, struct} x hook {absent, does nothing, status only, status+body, body only} x {PanicsHandler middleware} x {a byte committed before the panic} (+ the panic request issued twice), plus panics inside NotFound / NotAllowed / OnError handlers; each followed by every one of 15 follow-up request kinds compared with a fresh identical router; " +
+	Rule: "complete product: chain shapes n<=3 (thorough 5) x every global/group/route split x every panic position x {before Next, after Next, without Next} x panic value {string, error, struct} x hook {absent, does nothing, status only, status+body, body only} x {PanicsHandler middleware} x {a byte committed before the panic} (+ the panic request issued twice), plus panics inside NotFound / NotAllowed / OnError handlers; each followed by every one of 15 follow-up request kinds compared with a fresh identical router; " +
 		"every case is non-trivial (a panic is raised in each)",
 	Assume: []string{"for the in-chain PanicsHandler only 'the panic does not escape' and 'follow-ups are unaffected' are asserted (the statement promises nothing else for it)", "when the hook sets no status, any single committed status is accepted"},
 	Bounds: func(tier string) map[string]any {
-		return map[string]any{"n": map[string]int{"quick": 3, "thorough": 4}[tier], "follow_up_kinds": len(kindNames)}
+		return map[string]any{"n": map[string]int{"quick": 3, "thorough": 5}[tier], "follow_up_kinds": len(kindNames)}
 	},
 	Gen:   c09Gen,
 	Run:   c09Run,
